@@ -41,13 +41,13 @@ var props = map[string]propCfg{
 		Assumptions: commonAssumptions,
 	},
 	"C10": {
-		Require: []string{"filter_outputs_checked", "process_outputs_checked", "record_files_checked", "display_logs_checked", "outputs_judged_by_construction", "live_sessions", "sessions_with_one_write_held_up", "long_process_sessions"},
+		Require: []string{"filter_outputs_checked", "process_outputs_checked", "record_files_checked", "display_logs_checked", "outputs_judged_by_construction", "live_sessions", "sessions_with_one_write_held_up", "long_process_sessions", "cases_with_empty_reads"},
 		BinRace: true, QuickBatches: 8, ThoroughBatches: 48, Parallel: 8, Bins: []string{"rtcmfilter"}, AppTests: []string{"rtcmfilter"}, Level: "exploration", Floor: 40,
 		Rule:        "(a) in process, through a test file added to apps/rtcmfilter at check time by the build overlay: HandleMessages(start, reader, writer, config) with all four display/record combinations, paced/chunked readers, writers that are fast / yielding / sleeping, GOMAXPROCS in {1,2,4,16}, race detector on; the written bytes are compared at quiescence, defined on goroutine states (every goroutine with a frame in apps/rtcmfilter/main.go parked in a channel receive or gone, no write in flight, call counter stable). (b) the real binary built from the current tree with the hook overlay and the race detector: stdin as a file or a pipe written in random chunks with gaps, stdout read fast or through a 4 kB pipe read slowly, yield/sleep hook profiles, files read after exit as the date-ordered concatenation of the fresh log directory. Oracle: for inputs built from known segments (clean streams, well-formed decodable messages incl. SBAS/QZSS/NavIC and illegal timestamps) the expected output is the concatenation of the generator's own frame segments - independent of the code; for captured batches and hostile streams it is the concatenation of the typed messages of the same build's sequential framing, each required to be a frame by the independent predicate; the record file must hold the same bytes; readable log has one 'Frame length N bytes:' entry per delivered message. Inputs: captured batches, clean streams ending in a frame, hostile streams, well-formed decodable messages, truncated tails. Non-trivial: >= 2 messages delivered. Distinct by hash of the case.",
 		Assumptions: commonAssumptions,
 	},
 	"C11": {
-		Require: []string{"complete_at_return", "process_output_complete"},
+		Require: []string{"complete_at_return", "process_output_complete", "cases_with_a_closable_writer"},
 		BinRace: true, QuickBatches: 8, ThoroughBatches: 48, Parallel: 8, Bins: []string{"rtcmfilter", "displayrtcm3"}, AppTests: []string{"rtcmfilter", "displayrtcm3"}, Level: "exploration", Floor: 40,
 		Rule:        "in process (overlay-added test in each application's package main, race detector on): HandleMessages is called with a writer that completes each Write only after a delay (none / yields / 20 us - 1.5 ms sleep / blocks 5 ms per call) and counts completed bytes; the bytes completed are snapshotted by the calling goroutine in the statement after the call returns - no waiting is part of the verdict: a strict prefix of the full expected output = violation, equal = held. Expected output from the same build sequentially: headings + String()+newline of every message (displayrtcm3) or the valid frames (rtcmfilter). Inputs with 1..200 messages ending in a valid frame / junk / truncated frame; GOMAXPROCS in {1,2,16}. Plus process-level runs of both real binaries over finite files with stdout read fast or through a small slow pipe: the bytes that reach the pipe before exit are compared the same way. Non-trivial: non-empty input and a writer that is not instantaneous. Distinct by hash of the case.",
 		Assumptions: commonAssumptions,
@@ -65,13 +65,13 @@ var props = map[string]propCfg{
 		Assumptions: append([]string{"porcupine v1.3.0 decides linearizability of the recorded histories correctly"}, commonAssumptions...),
 	},
 	"C13": {
-		Require: []string{"tolerant_scripts_checked", "stop_scripts_checked", "stop_scripts_zero_tolerance", "stop_scripts_other_error", "stop_scripts_silence_beyond_tolerance", "stop_scripts_other_error_after_tolerated_fault", "scripts_with_data_and_fault_in_one_read", "scripts_with_a_slow_first_fault", "scripts_with_long_retry_pause", "stop_scripts_silent_source_reporting_fresh_timeouts"},
+		Require: []string{"tolerant_scripts_checked", "stop_scripts_checked", "stop_scripts_zero_tolerance", "stop_scripts_other_error", "stop_scripts_silence_beyond_tolerance", "stop_scripts_other_error_after_tolerated_fault", "scripts_with_data_and_fault_in_one_read", "scripts_with_a_slow_first_fault", "scripts_with_long_retry_pause", "stop_scripts_silent_source_reporting_fresh_timeouts", "scripts_with_a_reused_config", "scripts_with_a_second_interruption_soon_after_the_first"},
 		Race:    true, QuickBatches: 8, ThoroughBatches: 64, Parallel: 8, Level: "fault_enumeration", Floor: 200,
 		Rule:        "short streams (2-4 small frames, junk, optional truncated tail, some hostile; <= 400 bytes) read through a scripted io.Reader behind bufio by the real file handler with wait 1 ms / tolerance 120 ms. Tolerant scripts: a single end-of-file or i/o timeout at EVERY byte boundary; double faults (eof / 'i/o timeout' text / wrapped os.ErrDeadlineExceeded, any pair) at every 4th boundary; two separate interruptions (single or double) at random boundaries - all bytes must be processed exactly once in order (delivered sequence = the same build's sequential framing of all bytes), the channel closed and an error returned at the final silence. The configuration's unrelated settings (read timeout, sleep after failed open) are varied too. Stop scripts at every (quick: every 3rd) boundary: zero tolerance, another read error, another read error directly after a tolerated fault, or silence beyond the tolerance followed by data that must not be consumed - delivered = sequential framing of the bytes supplied before the stop (partial frame as non-RTCM), channel closed, error returned. The reader timestamps its faults: a tolerant script on which the handler gave up while two consecutive faults were >= half the tolerance apart is retried and otherwise inconclusive. Non-trivial: the fault falls strictly inside a frame. Distinct by hash of the script.",
 		Assumptions: commonAssumptions,
 	},
 	"C09": {
-		Require: []string{"messages_received_by_consumers", "hook_events", "sources_processed", "runs_with_empty_reads", "runs_with_silent_source", "runs_with_a_consumer_held_up_once", "runs_with_interruption_after_a_held_up_consumer"},
+		Require: []string{"messages_received_by_consumers", "hook_events", "sources_processed", "runs_with_empty_reads", "runs_with_silent_source", "runs_with_a_consumer_held_up_once", "runs_with_interruption_after_a_held_up_consumer", "runs_with_io_timeout_interruptions", "runs_with_a_long_consumer_list"},
 		Race:    true, QuickBatches: 16, ThoroughBatches: 96, Parallel: 8, Level: "exploration", Floor: 40,
 		Rule:        "pipeline runs of the real file handler + fan-out (appcore.HandleMessagesUntilEOF) under the race detector: inputs are the captured batches and generated clean/hostile streams (200 B - 12 kB); the reader delivers chunks of 1..{1,2,7,64,500,5000} bytes with yield/sleep profiles; 1-4 consumer channels with capacities {0,1,4,64}, nil entries at any index and fast/yielding/slow(50us-2ms)/bursty consumers; GOMAXPROCS in {1,2,3,4,8,16}; check-time yield/sleep hooks before every channel operation of file_handler, handler, pushback and appcore (5 profiles). Oracle: every non-nil consumer's (type, raw bytes) sequence equals the same build's sequential framing of the same bytes; raw bytes do not change after delivery; the call returns 0; afterwards no goroutine with a frame in the four pipeline files remains (blocked in every sample for 200 ms = violation, still runnable = inconclusive); double close / send on closed channel / race report end the child. Non-trivial: >=2 real consumers, >=10 messages and a perturbation active. Distinct by hash of (input, reader, consumers, GOMAXPROCS, hook profile, seed).",
 		Assumptions: commonAssumptions,
@@ -114,13 +114,13 @@ var props = map[string]propCfg{
 		Assumptions: commonAssumptions,
 	},
 	"C07": {
-		Require:      []string{"type_length_pairs_swept", "stream_messages", "frames_reported_as_error", "raw_inputs_to_single_frame_decoding"},
+		Require:      []string{"type_length_pairs_swept", "stream_messages", "frames_reported_as_error", "raw_inputs_to_single_frame_decoding", "periodic_stream_bytes", "one_byte_messages_displayed"},
 		QuickBatches: 16, ThoroughBatches: 128, Parallel: 16, Level: "exploration", Floor: 1000,
 		Rule:        "(1) CRC-valid frames for each of 19 type numbers (1005, 1006, the 14 MSM types, 1230, 1, 4095) x EVERY payload length 1..1023 x payload shapes (uniform random, sparse, all ones, plausible header with few mask bits, masks announcing 65..2048 cells, zeros), plus all 256 one-byte payloads; (2) well-formed 1005/1006/MSM bodies (independent encoder) truncated at every byte position, with mask bits forced upward, and with illegal timestamps; (3) arbitrary streams through the stream handler (all 0xD3, maximal length claims with short data, random up to 20 kB / 1 MB, hostile mixes). Each frame goes through single-frame decoding, Copy, String, Analyse, PrepareForDisplay and String again at both log levels under recover(); streams run on the handler's own goroutine so a panic there ends the child and is attributed to the on-disk witness. A case that runs for 60 s (>10^4 x median) is re-run alone and only then called a hang. Non-trivial: a CRC-valid frame of a decodable type shorter than / inconsistent with its layout, or a hostile stream. Distinct by hash of the bytes.",
 		Assumptions: commonAssumptions,
 	},
 	"C01": {
-		Require:      []string{"stream_typed_deliveries", "stream_rejected_d3_candidates", "direct_typed_no_error", "direct_rejected", "direct_reused_buffer_decodes", "direct_after_a_stream", "invalid_leaders_swept"},
+		Require:      []string{"stream_typed_deliveries", "stream_rejected_d3_candidates", "direct_typed_no_error", "direct_rejected", "direct_reused_buffer_decodes", "direct_after_a_stream", "invalid_leaders_swept", "direct_with_spare_capacity"},
 		QuickBatches: 8, ThoroughBatches: 64, Parallel: 16, Level: "exploration", Floor: 200,
 		Rule:        "hostile streams (valid frames of random type/length, stray 0xD3 runs, near-miss leaders, frames with one corrupted CRC byte / payload byte / forced 0xD3 / burst, length-field edits with and without CRC recomputation, truncated frames, NMEA/UBX/HTTP-like junk, random bytes dense in 0xD3) run through the stream handler, every typed delivery checked with an independent frame predicate (bitwise CRC-24Q); plus direct single-frame decoding of candidates (valid, valid+trailing bytes, crafted over-long inputs whose declared-length prefix has a bad CRC but whose whole has a good one, corrupted, truncated, zero-length, random). A stream is non-trivial when the gate took both outcomes (>=1 typed delivery and >=1 rejected 0xD3-led candidate); a direct call is non-trivial when the input is 0xD3-led and rejected, or typed with input longer than the frame. Distinct by hash of the input bytes.",
 		Assumptions: commonAssumptions,
@@ -144,7 +144,7 @@ var props = map[string]propCfg{
 		Assumptions: commonAssumptions,
 	},
 	"C14": {
-		Require:      []string{"large_buffer_extractions", "refilled_buffer_extractions"},
+		Require:      []string{"large_buffer_extractions", "refilled_buffer_extractions", "concurrent_extractions"},
 		QuickBatches: 8, ThoroughBatches: 64, Parallel: 16, Level: "exploration", Floor: 1000, MayBeExhaustive: true,
 		Rule:        "structured part: every alignment (pos mod 8 in 0..7) x every width 1..64 (signed 2..64) x byte offsets {0,1,7} x patterns {all 0, all 1, walking 1, walking 0, min of width, max of width, 0xAA, 0x55}, each compared with a math/big extraction and re-run on a copy with all outside bits complemented; plus seeded random (buffer,pos,width) triples. A case is non-trivial when the field is not all-zero bits and does not start on a byte boundary or spans more than one byte; distinct by hash of (buffer,pos,width,signedness).",
 		Assumptions: commonAssumptions,
